@@ -61,10 +61,14 @@ def parameter_table(rng):
     used = set()
     for _ in range(rng.randrange(1, 5)):
         nm = rng.choice([b'LOC ', b'COUN', b'STAT', b'LATI', b'LONG', _word(rng, 2, 5)])
+        if rng.random() < 0.25:
+            # a file made from a LAS file: parameters named like the LAS well section lines, describing the whole log
+            nm = rng.choice([b'STRT', b'STOP', b'STEP', b'NULL', b'WELL', b'COMP', b'UWI ', b'DATE'])
         if nm in used:
             continue
         used.add(nm)
-        objs.append(E.Obj((1, 0, nm), [_ascii_cell(_word(rng) + b' ' + _word(rng)), _ascii_cell(_word(rng))]))
+        val = _word(rng) if nm.strip() not in (b'STRT', b'STOP', b'STEP', b'NULL') else rng.choice([b'0.0', b'1000.0', b'0.5', b'-999.25', b'12345.6'])
+        objs.append(E.Obj((1, 0, nm), [_ascii_cell(_word(rng) + b' ' + _word(rng)), _ascii_cell(val)]))
     return E.Table(5, b'PARAMETER', None, template, objs)
 
 
